@@ -42,6 +42,9 @@ func zzStub_time_NewTimer(d time.Duration) *time.Timer {
 
 func zzStub_time_Timer_Stop(t *time.Timer) bool { return true }
 
+// time.Sleep is a wait on the same harness-owned timer.
+func zzStub_time_Sleep(d time.Duration) { <-zzStub_time_After(d) }
+
 func zzStub_time_Timer_Reset(t *time.Timer, d time.Duration) bool {
 	zzAfterLog = append(zzAfterLog, d)
 	return true
